@@ -57,6 +57,34 @@ fn u03_header_parse_t() {
     check_header_parse::<24>();
 }
 
+// a chunk whose length field needs TWO LEB128 bytes (data >= 128 bytes): the header shape differs from the
+// short cases above, and off-by-one errors in "is the whole chunk present?" only show near the end of the data
+#[kani::proof]
+#[kani::unwind(14)]
+#[kani::stub(hash, hash_stub)]
+fn u03_header_parse_long() {
+    let mut bytes: [u8; 141] = [0u8; 141];
+    // symbolic header (11 bytes: magic, checksum, type, 2-byte length), concrete zero data
+    let hdr: [u8; 11] = kani::any();
+    let mut i = 0;
+    while i < 11 {
+        bytes[i] = hdr[i];
+        i += 1;
+    }
+    let n: usize = kani::any();
+    kani::assume(n <= 141);
+    let r = Header::parse::<error::Header>(parse::Input::new(&bytes[..n]));
+    if let Ok((rest, h)) = r {
+        kani::cover!(h.data_len == 130);
+        assert!(n >= h.len() + h.data_len);
+        assert!(rest.unconsumed_bytes().len() == n - h.len());
+        let m: usize = kani::any();
+        kani::assume(m < h.len() + h.data_len);
+        let r2 = Header::parse::<error::Header>(parse::Input::new(&bytes[..m]));
+        assert!(matches!(r2, Err(parse::ParseError::Incomplete(_))));
+    }
+}
+
 // ---- checksum_valid compares ALL FOUR checksum bytes with the first four hash bytes (complete)
 #[kani::proof]
 fn u03_checksum_valid() {
